@@ -199,11 +199,26 @@ def run_wrapped(desc):
 
         __hash__ = None
 
+    bare_ns = {}
+    exec("def g(a, b=2):\n    return ('g', a, b)\n", bare_ns)
+
+    class Nameless:
+        """a callable object whose class sets __module__ / __qualname__ to None"""
+        __module__ = None
+
+        def __call__(self, x):
+            return ("nameless", x)
+
+    nameless = Nameless()
     calls = [  # (callable, args, kwargs)
         (deco(f1), (1, 2), {}), (deco(f2), (3,), {"k": 4}), (deco(f3), (1,), {"f": 7, "attempts": 9, "zz": 1}), (deco(f3), (1, 2, 3, 4), {}),
         (deco(f4), (), {"fn": 1, "retry": 2, "node": 3}), (f4, ("a", "b"), {}), (functools.partial(f3, 10), (), {"exc_type": 1, "f": 2}),
         (K, (5,), {"exc_type": "E"}), (K(1).m, (8,), {"q": 9}), (max, (3, 9, 4), {}), (sorted, ([3, 1, 2],), {"reverse": True}), (lambda *a, **k: (a, tuple(k.items())), (1,), {"f": 2, "args": 3}),
         (dict, (), {"f": 1, "self_": 2}), (deco(f2), (0,), {"k": None}),
+        # callables without a module of their own (__module__ is None): bound methods of built-in objects, functions defined by exec in a bare
+        # namespace, and callables whose name attributes are unusual
+        (", ".join, (["a", "b"],), {}), ({"k": 5}.get, ("k",), {}), ([1, 2, 2].count, (2,), {}), ("abc".upper, (), {}), (bare_ns["g"], (1,), {"b": 3}),
+        (nameless, (4,), {}),
     ]
     rng.shuffle(calls)
     calls = calls[: rng.randint(4, len(calls))]
